@@ -1,4 +1,6 @@
 #!/bin/sh
+# evidence of runs against deliberately broken trees goes to a scratch directory, never to evidence/
+export VERIF_EVIDENCE_DIR="${VERIF_EVIDENCE_DIR:-/verif/sim/target/evidence-scratch}"
 # Apply each hand-written breaking change of sensitivity/LIST.txt to /repo, run the quick check
 # of the property it breaks, revert. Prints one line per change: CAUGHT / MISSED / BUILD-FAILED.
 cd "$(dirname "$0")"
